@@ -38,7 +38,9 @@ CONSTANTS
   CrossVersion,       \* the application also hands in packets of the OTHER protocol version (must be refused)
   Restore,            \* a fresh object is given an export first - also malformed ones (duplicate ids, QoS 0 entries)
   Regulate_,          \* the application asks for the store form of v5.0 PUBLISH packets (regulate_for_store, a pure query)
-  OptFlips            \* options the application may switch on AND off at any time (not only before the first connection)
+  OptFlips,           \* options the application may switch on AND off at any time (not only before the first connection)
+  FreeIdSends,        \* the application also hands in QoS>0 PUBLISH packets whose identifier it never acquired (must be refused, nothing released)
+  Msgs                \* payload tags of PUBLISH packets ("" = empty payload, "m4xx" = 4 bytes, any other tag 2 bytes)
 
 VARIABLES st,    \* Endpoint state of the object under test
           sh,    \* shadow object [mode, st]: fresh / fixed-version / restored copy (C10, C17, C16)
@@ -68,8 +70,8 @@ ConnackPkts(ver) ==
 
 PublishPkts(ver, pids, idw) ==
   { Sized([Pk("publish", ver) EXCEPT !.qos = q, !.pid = IF q = 0 THEN 0 ELSE pid, !.topic = t,
-             !.alias = IF ver = "v50" THEN a ELSE 0, !.msg = "m1"], idw)
-    : q \in QosSet, pid \in pids, t \in Topics, a \in Aliases }
+             !.alias = IF ver = "v50" THEN a ELSE 0, !.msg = m], idw)
+    : q \in QosSet, pid \in pids, t \in Topics, a \in Aliases, m \in Msgs }
 
 WellFormedPublish(p) == (p.topic # "" \/ p.alias # 0) /\ (p.qos > 0 => p.pid # 0)
 
@@ -78,6 +80,9 @@ Ver(s) == IF s.ver = "undet" THEN "v311" ELSE s.ver      \* version of packets e
 AppSendsV(s, gh, v) ==
   (IF "publish" \in AppKinds
    THEN { p \in PublishPkts(v, gh.held \cup {0}, s.idw) : WellFormedPublish(p) /\ (p.qos = 0 \/ p.pid \in gh.held) }
+        \cup (IF FreeIdSends
+              THEN { p \in PublishPkts(v, ExtraPids \ (gh.used \cup {0}), s.idw) : WellFormedPublish(p) /\ p.qos > 0 /\ p.alias = 0 }
+              ELSE {})
    ELSE {})
   \cup (IF "subscribe" \in AppKinds THEN { Sized([Pk("subscribe", v) EXCEPT !.pid = pid], s.idw) : pid \in gh.held } ELSE {})
   \cup (IF "unsubscribe" \in AppKinds THEN { Sized([Pk("unsubscribe", v) EXCEPT !.pid = pid], s.idw) : pid \in gh.held } ELSE {})
@@ -216,6 +221,12 @@ Next ==
          base == IF c.op = "crash"
                  THEN [mode |-> "restored", hf |-> c.flag,   \* hf: the order of the two restore calls (kept in the state so that BOTH are continued)
                        st |-> RestoreQos2(RestorePackets(FreshLike(st, st.ver), st.store), st.qos2)]
+                 \* a reused object that still holds a persistent session is compared with a fresh object that was GIVEN
+                 \* that session (export / import): whatever else the reused one remembers is connection-scoped state
+                 \* (only where the export really is the whole session: every exchange in flight has its packet in the store)
+                 ELSE IF spawnFresh /\ g.persistent /\ g.held = {} /\ ~(\E e \in g.await : e.kind = "pubrel")
+                         /\ { e.pid : e \in g.await } \subseteq StoreIds(st)
+                      THEN [mode |-> "resumed", hf |-> FALSE, st |-> RestoreQos2(RestorePackets(FreshLike(st, st.ver), st.store), st.qos2)]
                  ELSE IF spawnFresh THEN [mode |-> "fresh", hf |-> FALSE, st |-> FreshLike(st, st.ver)]
                  \* a fixed-version server that went through the same identifier-management calls
                  ELSE IF spawnFixed THEN [mode |-> "fixed", hf |-> FALSE, st |-> [FreshLike(st, c.pkt.ver) EXCEPT !.pool = st.pool]]
